@@ -223,9 +223,16 @@ SvcSeq(d) ==
 (* The deserialisation / builder gate: EVERY small document -- valid or not -- is offered to from_json and to the builder;
    it must be accepted only if it is valid (two methods with one id, a reference aliasing an embedded method and a service
    id equal to a method id are refused whatever DID the colliding id is under). *)
-LoadDocs == {d \in [vm : SeqsUpTo(Ids, MaxLoad), rel : [Rels -> SeqsUpTo(Entry, MaxLoad)], svc : SeqsUpTo(Ids, MaxLoad)] :
-               Size(d) <= MaxLoad}
-LoadInit == /\ doc \in LoadDocs
+\* (built field by field within the remaining budget: filtering the full product took TLC more than 15 minutes for n = 3.
+\* An operator WITH a parameter on purpose: TLC evaluates constant-level definitions without parameters at start-up, for every
+\* specification that extends this module -- with the 12 ids x 5 relationships of the trace configuration that never ends.)
+RelSize(r) == LET RECURSIVE Sum(_) Sum(i) == IF i = 0 THEN 0 ELSE Len(r[RelOrder[i]]) + Sum(i-1) IN Sum(Len(RelOrder))
+LoadDocs(n) ==
+  UNION { UNION { { [vm |-> v, rel |-> r, svc |-> s] :
+                      r \in {rr \in [Rels -> SeqsUpTo(Entry, n - Len(v) - Len(s))] : RelSize(rr) <= n - Len(v) - Len(s)} } :
+                  s \in SeqsUpTo(Ids, n - Len(v)) } :
+          v \in SeqsUpTo(Ids, n) }
+LoadInit == /\ doc \in LoadDocs(MaxLoad)
             /\ last = [kind |-> "load", pre |-> doc, op |-> [name |-> "load"], res |-> [ok |-> Valid(doc)], post |-> doc]
 LoadSpec == LoadInit /\ [][UNCHANGED vars]_vars
 EmitLoad == PrintT(<<"CASE", ToJson([kind |-> "load", pre |-> doc, valid |-> Valid(doc)])>>)
